@@ -767,7 +767,8 @@ Section Count.
     - intros v Hv. rewrite elem_of_nil. destruct (Hmk v Hv) as [-> | ->]; split; done.
     - intros v Hv. rewrite elem_of_nil. destruct (Hmk v Hv) as [-> | ->]; split; done.
     - intros v Hv. split; [by apply Hmp|by apply Hpm].
-    - intros v Hv. Show. rewrite Htc by done. by rewrite cnt_nil, occ_nil.
+    - intros v Hv. by apply elem_of_nil in Hv.
+    - intros v Hv. by apply elem_of_nil in Hv.
   Qed.
 
   Lemma pop_inv s p m' q' :
